@@ -30,13 +30,14 @@ def run_one(sid, tier, jobs):
     try:
         # a scratch copy of the working tree's library (tracked files only matter)
         shutil.copytree(os.path.join(REPO, "Lib"), os.path.join(scratch, "Lib"), symlinks=True)
-        r = subprocess.run(["git", "apply", "--unsafe-paths", "--directory=" + scratch, "--include=Lib/*", os.path.join(d, "patch.diff")],
-                           cwd=scratch, capture_output=True, text=True)
+        r = subprocess.run(["patch", "-p1", "-s", "-d", scratch, "-i", os.path.join(d, "patch.diff")], capture_output=True, text=True)
         if r.returncode != 0:
-            r = subprocess.run(["patch", "-p1", "-d", scratch, "-i", os.path.join(d, "patch.diff")], capture_output=True, text=True)
-            if r.returncode != 0:
-                return {"id": sid, "property": prop, "error": "patch does not apply: " + (r.stderr or r.stdout)[-300:]}
-        out = {"id": sid, "property": prop, "needs": meta.get("needs"), "runs": []}
+            return {"id": sid, "property": prop, "error": "patch does not apply: " + (r.stderr or r.stdout)[-300:]}
+        changed = subprocess.run(["diff", "-rq", os.path.join(REPO, "Lib"), os.path.join(scratch, "Lib")], capture_output=True, text=True).stdout
+        changed = [l for l in changed.splitlines() if "__pycache__" not in l]
+        if not changed:
+            return {"id": sid, "property": prop, "error": "patch applied but the library copy is unchanged"}
+        out = {"id": sid, "property": prop, "needs": meta.get("needs"), "files_changed": len(changed), "runs": []}
         tiers = ["quick", "thorough"] if tier == "both" else [tier]
         for t in tiers:
             env = dict(os.environ, VMON_LIB=os.path.join(scratch, "Lib"), VMON_JOBS=str(jobs), VMON_NO_EVIDENCE="1")
